@@ -179,7 +179,7 @@ func genStreamMerge(rng *rand.Rand, n int) []smStep {
 		case c < 50 && n > 0 && !fin[i]:
 			fin[i] = true
 			if rng.Intn(4) == 0 {
-				out = append(out, smStep{A: "srcerr", I: i})
+				out = append(out, smStep{A: []string{"srcerr", "srcerr", "srccanc"}[rng.Intn(3)], I: i})
 			} else {
 				out = append(out, smStep{A: "end", I: i})
 			}
@@ -305,6 +305,8 @@ func runStreamMergeKids(t *testing.T, n int, steps []smStep, kids int) ([]Ev, bo
 				srcs[st.I].q <- srcMsg{1, 0}
 			case "srcerr":
 				srcs[st.I].q <- srcMsg{2, 0}
+			case "srccanc":
+				srcs[st.I].q <- srcMsg{3, 0}
 			case "next":
 				if busy() || closed {
 					return
